@@ -76,6 +76,11 @@ func Harness_C10_q_fanout() {
 	svc.AddCharacteristic(on.Characteristic)
 	acc.AddService(svc)
 	t.addAccessory(acc)
+	// the value before the change is arbitrary within the declared range (set before anybody
+	// is connected)
+	old0 := int(verif.U8("old"))
+	verif.Assume(old0 <= 100)
+	bright.SetValue(old0)
 
 	raw := make([]*qqConn, N)
 	conns := make([]*hap.Connection, N)
@@ -99,15 +104,21 @@ func Harness_C10_q_fanout() {
 		conns[closed].Close()
 	}
 	old := bright.GetValue()
-	nv := int(verif.U8("new"))
-	verif.Assume(nv <= 100)
+	// the requested value is arbitrary, also beyond the declared maximum (100): the stored
+	// value is the clamped one, and "unchanged" refers to the stored value
+	req := int(verif.U8("new"))
+	nv := req
+	if nv > 100 {
+		nv = 100
+	}
 	origin := verif.Choice("origin", N+1) // N = local application
 	if origin < N {
 		verif.Assume(origin != closed)
-		bright.UpdateValueFromConnection(float64(nv), conns[origin])
+		bright.UpdateValueFromConnection(float64(req), conns[origin])
 	} else {
-		bright.SetValue(nv)
+		bright.SetValue(req)
 	}
+	verif.Assert(bright.GetValue() == nv, "stored-value-is-the-clamped-request")
 	changed := nv != old
 	for i := 0; i < N; i++ {
 		want := 0
